@@ -103,20 +103,41 @@ def work_usage(a, tally):
         tally.violation({"argv": argv, "fingerprint": "usage:exc:" + res["exc"]["fingerprint"],
                          "what": "generator raised %r" % (res["exc"],)})
         return
-    calls = [c for c in rngenv.LAST_NP.random.calls if c[0] == "choice" and not c[3]]
+    # every weighted draw must use weights proportional to the reference on its
+    # support (a refactoring may draw a list entry by entry with renormalised
+    # weights), and all list entries - except possibly the forced last entry of a
+    # full-length list - must come out of weighted draws
     want = ref_weights(a["n2"], a["skew"])
     bad = None
-    if len(calls) != a["n1"] * a.get("numinst", 1):
-        bad = ("usage:list-drawn-without-the-weights",
-               "%d weighted draws for %d first-side lists (modelled RNG calls %r)" % (
-                   len(calls), a["n1"], [c[:4] for c in rngenv.LAST_NP.random.calls]))
-    else:
-        for c in calls:
-            p = c[4]
-            if p is None or len(p) != a["n2"] or any(
-                    abs(x - y) > TOL * max(1.0, y) + 1e-15 for x, y in zip(p, want)):
-                bad = ("usage:wrong-weights", "draw used p=%r, reference %r" % (p, want))
-                break
+    drawn = 0
+    for cl in rngenv.LAST_NP.random.calls:
+        if cl[0] != "choice" or cl[1] != a["n2"]:
+            continue
+        if len(cl) > 5 and cl[5] is not None and 0 in cl[5]:
+            continue                     # a draw over {0,1}: tie indicators, not agents
+        p = cl[4]
+        if p is None:
+            if a["skew"] != 1.0:
+                continue                 # an unweighted draw contributes nothing
+            p = tuple(1.0 / a["n2"] for _ in range(a["n2"]))
+        supp = [i for i, x in enumerate(p) if x > 0]
+        tot = sum(want[i] for i in supp)
+        if any(abs(p[i] - want[i] / tot) > 1e-9 for i in supp):
+            bad = ("usage:wrong-weights", "draw used p=%r, reference weights %r" % (p, want))
+            break
+        drawn += int(cl[2]) if cl[2] is not None else 1
+    if bad is None:
+        need = 0
+        for text in (res["files"] or {}).values():
+            lines = text.split("\n")[1:1 + a["n1"]]
+            for l in lines:
+                k = len(l.split(":", 1)[1].replace("(", " ").replace(")", " ").split())
+                need += k - (1 if k == a["n2"] else 0)
+        if drawn < need:
+            bad = ("usage:list-drawn-without-the-weights",
+                   "%d list entries came out of weighted draws, the files contain %d entries "
+                   "that need one (modelled RNG calls %r)" % (
+                       drawn, need, [c[:4] for c in rngenv.LAST_NP.random.calls]))
     if bad:
         tally.violation({"argv": argv, "args": a, "fingerprint": bad[0], "what": bad[1]})
 
